@@ -348,6 +348,10 @@ func genRule(t *verifrt.Tape, o *genOpts, id int, depth int) RuleSpec {
 		}
 	case 3:
 		r.Extra = append(r.Extra, fmt.Sprintf("msg:'m%d %%{MATCHED_VAR_NAME}'", id))
+	case 4:
+		if o.Dyn && t.Draw(3) == 0 {
+			r.Extra = append(r.Extra, "setvar:!tx."+pick(t, []string{"cnt", "last", "score"}))
+		}
 	}
 	if o.Capture && t.Draw(6) == 0 {
 		r.Extra = append(r.Extra, "capture")
@@ -361,6 +365,8 @@ func genRule(t *verifrt.Tape, o *genOpts, id int, depth int) RuleSpec {
 			"ctl:ruleEngine=DetectionOnly", "ctl:ruleEngine=Off", "ctl:auditEngine=Off", "ctl:auditEngine=On", "ctl:auditLogParts=+E", "ctl:auditLogParts=-H",
 			"ctl:requestBodyAccess=Off", "ctl:forceRequestBodyVariable=On", "ctl:requestBodyLimit=5", "ctl:responseBodyAccess=Off", "ctl:ruleRemoveById=101-103",
 			"ctl:ruleRemoveByTag=t1", "ctl:requestBodyProcessor=JSON", "ctl:ruleRemoveTargetByTag=t1;ARGS:b",
+			"ctl:responseBodyLimit=7", "ctl:forceResponseBodyVariable=On", "ctl:requestBodyProcessor=URLENCODED", "ctl:ruleRemoveById=102",
+			"ctl:ruleRemoveTargetById=101;REQUEST_HEADERS:x-a", "ctl:ruleRemoveTargetById=103;ARGS:/^a/", "ctl:auditLogParts=-C", "ctl:ruleEngine=On",
 		}))
 	}
 	if t.Draw(5) == 0 {
